@@ -40,3 +40,10 @@ Proof.
   - destruct (nth_error sh six) as [el|]; ds_unfold f0; [reflexivity|].
     destruct idn; [reflexivity|]. destruct cpp; reflexivity.
 Qed.
+
+(** the body of [dash_impl]'s initial-phase loop: one unfolding of the model's [init_loop] where its condition holds *)
+Lemma br_dash_init_step : forall (T : Type) (S : Scalar T) (dash_ix_ : nat) (dash_remaining_ : T) (is_active_ : bool) (dashes_ : (list T)), forall tr_fuel tr_fx, KV.Dash.init_continue tr_fx dash_remaining_ is_active_ = true -> KV.Dash.init_loop tr_fx dashes_ (Datatypes.S tr_fuel) dash_ix_ dash_remaining_ is_active_ = (let '(_, tr_i, tr_r, tr_a) := (Gen.dash_init_step dash_ix_ dash_remaining_ is_active_ dashes_) in KV.Dash.init_loop tr_fx dashes_ tr_fuel tr_i tr_r tr_a).
+Proof.
+  intros T S ix rem act dashes fuel fx Hc. cbn [KV.Dash.init_loop]. rewrite Hc.
+  cbv beta iota zeta delta [Gen.dash_init_step]. rewrite PeanoNat.Nat.add_1_r. reflexivity.
+Qed.
